@@ -16,9 +16,11 @@ import (
 )
 
 type solverSpec struct {
+
 	name string
 	argv func(file string, timeout int) []string
 	prep func(script string) string
+	abstract bool // runs the query with the float/integer conversions uninterpreted: only `unsat` is an answer
 }
 
 func cvc5Prep(s string) string {
@@ -27,14 +29,14 @@ func cvc5Prep(s string) string {
 }
 
 var solvers = []solverSpec{
-	{"z3-5.1", func(f string, t int) []string { return []string{"z3-new", fmt.Sprintf("-T:%d", t), f} }, nil},
-	{"z3-4.8", func(f string, t int) []string { return []string{"z3", fmt.Sprintf("-T:%d", t), f} }, nil},
+	{"z3-5.1", func(f string, t int) []string { return []string{"z3-new", fmt.Sprintf("-T:%d", t), f} }, nil, false},
+	{"z3-4.8", func(f string, t int) []string { return []string{"z3", fmt.Sprintf("-T:%d", t), f} }, nil, false},
 	{"cvc5", func(f string, t int) []string {
 		return []string{"cvc5", "--incremental", fmt.Sprintf("--tlimit=%d", t*1000), "--fp-exp", f}
-	}, cvc5Prep},
+	}, cvc5Prep, false},
 	{"cvc5-lazyfp", func(f string, t int) []string {
 		return []string{"cvc5", "--incremental", fmt.Sprintf("--tlimit=%d", t*1000), "--fp-exp", "--fp-lazy-wb", f}
-	}, cvc5Prep},
+	}, cvc5Prep, false},
 }
 
 var workDir string
@@ -130,6 +132,19 @@ func solveOne(o *Obligation, timeout int, thorough bool) {
 		o.Result, o.Solver = "unknown", "none"
 		// stage 1: z3 5.1 and cvc5 with lazy float blasting; stage 2: z3 4.8 and plain cvc5
 		stages := [][]solverSpec{{solvers[0], solvers[3]}, {solvers[1], solvers[2]}}
+		if strings.Contains(o.Script, "(define-fun cv!") {
+			ab := solvers[0]
+			ab.abstract = true
+			ab.name = solvers[0].name + "+uf-conversions"
+			basePrep := ab.prep
+			ab.prep = func(sc string) string {
+				if basePrep != nil {
+					sc = basePrep(sc)
+				}
+				return abstractConversions(sc)
+			}
+			stages[0] = append(stages[0], ab)
+		}
 		for _, stage := range stages {
 			ctx, cancel := context.WithCancel(context.Background())
 			ch := make(chan ans, len(stage))
@@ -146,6 +161,9 @@ func solveOne(o *Obligation, timeout int, thorough bool) {
 				a := <-ch
 				if done {
 					continue
+				}
+				if a.sp.abstract && a.r != "unsat" {
+					a.r = "unknown" // a model of the abstraction is not a model of the query
 				}
 				o.AllRes[a.sp.name] = a.r
 				if a.secs > o.Secs {
@@ -245,4 +263,25 @@ func solveAll(obs []*Obligation, timeout int, thorough bool) {
 		os.RemoveAll(workDir)
 		workDir = ""
 	}
+}
+
+// abstractConversions turns the definitions of the float/integer conversion functions into declarations. Every model
+// of the original query is a model of the result (take the real conversions for the functions), so `unsat` carries over.
+func abstractConversions(script string) string {
+	lines := strings.Split(script, "\n")
+	for i, l := range lines {
+		if !strings.HasPrefix(l, "(define-fun cv!") {
+			continue
+		}
+		n, _ := readSx(l, 0)
+		if n == nil || len(n.list) != 5 {
+			continue
+		}
+		var args []string
+		for _, a := range n.list[2].list {
+			args = append(args, a.list[1].String())
+		}
+		lines[i] = fmt.Sprintf("(declare-fun %s (%s) %s)", n.list[1].atom, strings.Join(args, " "), n.list[3].String())
+	}
+	return strings.Join(lines, "\n")
 }
